@@ -100,10 +100,9 @@ func New(maxConcurrent int, chQqueueSize int, v ...interface{}) *TaskPool {
 	}
 	if len(v) > 0 {
 		if caller, ok := v[0].(func(f func())); ok {
-			tp.caller = func(f func()) {
-				defer atomic.AddInt64(&tp.concurrent, -1)
-				caller(f)
-			}
+			// the worker that runs the task owns the counter unit and returns
+			// it when it exits: the caller must not subtract another one.
+			tp.caller = caller
 		}
 	}
 	go func() {
